@@ -56,7 +56,9 @@ def main():
     tr_errors, translated = common.regen()
     props_file = f"Props/{pid}.v"
     closure = common.deps_closure(props_file)
-    build_ok, build_log = common.coq_build([f"Props/{pid}.vo"] + getattr(prop, "EXTRA_TARGETS", []))
+    # the executable models the correspondence evaluates under vm_compute are always (re)built together with the property's theorems
+    models = [f"Model/{m}.vo" for m in ("TreeCheck", "Hist", "Select", "NBC", "Far", "Report", "Bounds", "Problem", "Ops") if os.path.exists(os.path.join(common.COQ, "Model", m + ".v"))]
+    build_ok, build_log = common.coq_build([f"Props/{pid}.vo"] + models + getattr(prop, "EXTRA_TARGETS", []))
     gate_hits = common.gate(closure)
     ass_ok, assumptions, ass_log = (False, [], "")
     if build_ok:
